@@ -7,6 +7,7 @@ import (
 	"fmt"
 	"go/token"
 	"go/types"
+	"os"
 
 	"golang.org/x/tools/go/ssa"
 )
@@ -957,4 +958,17 @@ func c15Component(rr *ssa.Function, calls []*ssa.Call, strct bool, k int) valSet
 		}
 	}
 	return nil
+}
+
+func init() {
+	controls["C15"] = func(c *Ctx, r *Report) {
+		run := func(name string) map[string]bool {
+			return c15Step(c, nil, nil, c.fnMust("cserver", "*Asm."+name))
+		}
+		good := run("StepGood")
+		r.controls["C15/negative-control-silent"] = len(good) == 0
+		r.controls["C15/R15.1-consume-before-complete"] = run("StepEager")["R15.1:consume-before-complete"]
+		r.controls["C15/R15.1-withholds-complete-request"] = run("StepWithholds")["R15.1:withholds-complete-request"]
+		r.controls["C15/R15.2-leftover-bytes"] = run("StepLeftover")["R15.2:leftover-bytes"] || run("StepLeftover")["R15.1:next-count"]
+	}
 }
